@@ -9,6 +9,7 @@
 package c07
 
 import (
+	"encoding/base64"
 	"fmt"
 	"net/http"
 	"net/url"
@@ -47,14 +48,14 @@ type Op struct {
 	Age        int    `json:"age,omitempty"`     // old: how many rotations back
 	Unknown    string `json:"unknown,omitempty"` // random | flipped | suffixed | access | empty
 	Who        int    `json:"who,omitempty"`     // 0: the lineage's client, 1/2: the next / second next client (foreign)
-	Pres       string `json:"pres,omitempty"`    // right | wrong_secret | id_only | bad_assertion
+	Pres       string `json:"pres,omitempty"`    // right | wrong_secret | id_only | bad_assertion | presentations that name no client at all (whatever kind the token's client is): anonymous | empty_id | empty_id_secret | basic_empty_user | empty_assertion
 	Scope      string `json:"scope,omitempty"`   // absent | equal | permuted | subset | duplicate | orig | superset | widenback | disjoint | empty | spaces
 	Sel        int    `json:"sel,omitempty"`     // selector bits (subset members, position of the extra scope)
 	Extra      int    `json:"extra,omitempty"`   // which never-granted scope is added
 	Introspect bool   `json:"introspect,omitempty"`
 	ClaimID    bool   `json:"claim_id,omitempty"` // Basic / assertion presentations: additionally send client_id=<the lineage's client> in the form
 	Par        *Par   `json:"par,omitempty"`      // kind par
-	In         string `json:"in,omitempty"`       // where the parameters travel: "" = POST body | query-grant (grant_type in the URL query, rest in the body) | query-token (refresh_token in the URL query) | query-all (POST, everything in the URL query) | get (GET request)
+	In         string `json:"in,omitempty"`       // where the parameters travel: "" = POST body | query-grant (grant_type in the URL query, rest in the body) | query-token (refresh_token in the URL query) | query-client (client_id only in the URL query) | query-all (POST, everything in the URL query) | get (GET request)
 }
 
 type Case struct {
@@ -103,8 +104,12 @@ var (
 	badScopes = []string{"superset", "superset", "widenback", "widenback", "orig", "disjoint", "empty", "spaces"}
 	allScopes = append(append([]string{}, okScopes...), badScopes...)
 	badPres   = []string{"wrong_secret", "id_only", "bad_assertion"}
+	// presentations that do not say which client is asking (no client_id, an empty one, Basic with an empty user, an empty
+	// assertion): the caller is nobody, so no refresh token - of a public client either - may be served
+	unidentPres = []string{"anonymous", "anonymous", "empty_id", "empty_id_secret", "basic_empty_user", "empty_assertion"}
+	anyBadPres  = append(append([]string{}, badPres...), unidentPres...)
 	// parameter placement: the endpoints read the URL query as well as the body, so every guard has to hold wherever a parameter travels
-	placements = []string{"", "", "", "", "", "", "query-grant", "query-grant", "query-all", "get", "query-token"}
+	placements = []string{"", "", "", "", "", "", "query-grant", "query-grant", "query-all", "get", "query-token", "query-client"}
 	unknowns  = []string{"random", "flipped", "suffixed", "access", "empty"}
 )
 
@@ -125,19 +130,21 @@ func validRefresh(t *rapid.T, label string) Op {
 func genRefresh(t *rapid.T, label string) Op {
 	op := validRefresh(t, label)
 	// one deviation from a valid request at a time most of the time; "multi" draws every axis independently
-	switch rapid.SampledFrom([]string{"none", "none", "none", "none", "none", "token", "token", "caller", "caller", "pres", "scope", "scope", "scope", "multi"}).Draw(t, label+"deviation") {
+	switch rapid.SampledFrom([]string{"none", "none", "none", "none", "none", "token", "token", "caller", "caller", "pres", "unident", "unident", "scope", "scope", "scope", "multi"}).Draw(t, label+"deviation") {
 	case "token":
 		op.Tok = rapid.SampledFrom([]string{"old", "old", "unknown"}).Draw(t, label+"tok")
 	case "caller":
 		op.Who = rapid.IntRange(1, 2).Draw(t, label+"who")
 	case "pres":
 		op.Pres = rapid.SampledFrom(badPres).Draw(t, label+"pres")
+	case "unident":
+		op.Pres = rapid.SampledFrom(unidentPres).Draw(t, label+"unident")
 	case "scope":
 		op.Scope = rapid.SampledFrom(badScopes).Draw(t, label+"badscope")
 	case "multi":
 		op.Tok = rapid.SampledFrom([]string{"live", "live", "old", "unknown"}).Draw(t, label+"tok")
 		op.Who = rapid.SampledFrom([]int{0, 0, 1, 2}).Draw(t, label+"who")
-		op.Pres = rapid.SampledFrom(append([]string{"right", "right", "right"}, badPres...)).Draw(t, label+"pres")
+		op.Pres = rapid.SampledFrom(append([]string{"right", "right", "right"}, anyBadPres...)).Draw(t, label+"pres")
 		op.Scope = rapid.SampledFrom(allScopes).Draw(t, label+"anyscope")
 	}
 	if op.Tok == "old" {
@@ -306,6 +313,7 @@ type world struct {
 	stop                               bool // a violation was recorded after which the model may be out of step
 	judged, greyOps, accepted, refused int
 	foreignTried, replayTried          bool
+	unidentTried                       bool // a request that names no client presented a live refresh token
 
 	// concurrent steps (interleave_test.go)
 	gateJ0     int // journal length when the first gate was registered (the store counts calls per method from then on); -1: no gate yet
@@ -485,8 +493,27 @@ func (w *world) issue(i int, op Op) {
 
 // present builds the credential presentation of client ci. ok reports whether it authenticates (or, for the public
 // client, identifies) that client.
-func (w *world) present(ci int, pres string) (cred vkit.Cred, ok bool, kind string) {
+func (w *world) present(ci int, pres string, sel int) (cred vkit.Cred, ok bool, kind string) {
 	cl := w.specs[ci]
+	if isUnident(pres) {
+		// nobody is named: ci only lends its secret (a right secret without a name still names nobody)
+		secret := ""
+		if sel&2 != 0 {
+			secret = cl.Secret
+		}
+		kind = "unidentified:" + pres
+		switch pres {
+		case "empty_id": // client_id= (added to the form by prepare)
+			return vkit.Cred{Kind: "none"}, false, kind
+		case "empty_id_secret":
+			return vkit.Cred{Kind: "post", ClientID: "", Secret: secret}, false, kind
+		case "basic_empty_user":
+			return vkit.Cred{Kind: "rawbasic", Raw: "Basic " + base64.StdEncoding.EncodeToString([]byte(":"+secret))}, false, kind
+		case "empty_assertion":
+			return vkit.Cred{Kind: "assertion", Assertion: ""}, false, kind
+		}
+		return vkit.Cred{Kind: "none"}, false, kind // no client_id parameter, no Authorization header, no assertion
+	}
 	if cl.AuthMethod == "none" {
 		return vkit.Cred{Kind: "none", ClientID: cl.ID}, true, "public-identified"
 	}
@@ -501,6 +528,15 @@ func (w *world) present(ci int, pres string) (cred vkit.Cred, ok bool, kind stri
 		return vkit.Cred{Kind: "assertion", Assertion: a}, false, "bad-assertion"
 	}
 	return vkit.RightCred(cl, issuer), true, "authenticated:" + cl.AuthMethod
+}
+
+func isUnident(pres string) bool {
+	for _, p := range unidentPres {
+		if p == pres {
+			return true
+		}
+	}
+	return false
 }
 
 func pickOutside(orig []string, extra int) string {
@@ -621,6 +657,8 @@ func send(ag *vkit.Agent, form url.Values, cred vkit.Cred, in string) *vkit.Resp
 		return split("grant_type")
 	case "query-token":
 		return split("refresh_token")
+	case "query-client":
+		return split("client_id")
 	case "query-all":
 		return ag.Post(path+"?"+f.Encode(), url.Values{}, hdr)
 	case "get":
@@ -641,6 +679,7 @@ type attempt struct {
 	caller   int
 	cred     vkit.Cred
 	authOK   bool
+	unident  bool // the presentation names no client at all
 	presKind string
 	form     url.Values
 	sclass   string
@@ -725,7 +764,11 @@ func (w *world) prepare(i int, op Op) *attempt {
 	if l != nil {
 		caller = (l.client + op.Who) % 3
 	}
-	cred, authOK, presKind := w.present(caller, op.Pres)
+	unident := isUnident(op.Pres)
+	if unident && l != nil {
+		caller = l.client // there is no caller; the lineage's client stands in for labels and lends its secret
+	}
+	cred, authOK, presKind := w.present(caller, op.Pres, op.Sel)
 	if op.ClaimID && l != nil && authOK && (cred.Kind == "basic" || cred.Kind == "assertion") {
 		// the caller is who the Authorization header / assertion proves, whatever the form's client_id says
 		cred.BodyID = w.specs[l.client].ID
@@ -733,6 +776,21 @@ func (w *world) prepare(i int, op Op) *attempt {
 	}
 
 	form := url.Values{"grant_type": {vkit.GRefr}, "refresh_token": {token}}
+	if op.Pres == "empty_id" {
+		form.Set("client_id", "")
+	}
+	if op.In == "query-client" {
+		// only a request that carries a client_id parameter can carry it elsewhere
+		f := url.Values{}
+		for k, v := range form {
+			f[k] = v
+		}
+		cred.Apply(f, http.Header{})
+		if _, has := f["client_id"]; !has {
+			op.In = ""
+			a.op = op
+		}
+	}
 	sclass := "n/a"
 	var req []string
 	if l != nil {
@@ -756,14 +814,20 @@ func (w *world) prepare(i int, op Op) *attempt {
 	case "replayed":
 		reasons = append(reasons, "replayed-token")
 	}
-	if state != "unknown" && caller != l.client {
-		reasons = append(reasons, "foreign-client")
-	}
-	if !authOK {
-		reasons = append(reasons, "unauthenticated")
-	}
-	if !w.hasGrant[caller] {
-		reasons = append(reasons, "client-not-registered")
+	switch {
+	case unident:
+		// "only for the (authenticated, or public and identified) client": a caller that names no client is none of them
+		reasons = append(reasons, "unidentified")
+	default:
+		if state != "unknown" && caller != l.client {
+			reasons = append(reasons, "foreign-client")
+		}
+		if !authOK {
+			reasons = append(reasons, "unauthenticated")
+		}
+		if !w.hasGrant[caller] {
+			reasons = append(reasons, "client-not-registered")
+		}
 	}
 	if state == "live" {
 		switch sclass {
@@ -788,6 +852,10 @@ func (w *world) prepare(i int, op Op) *attempt {
 	if state == "live" && caller != l.client {
 		w.foreignTried = true
 	}
+	if state == "live" && unident {
+		w.unidentTried = true
+		w.label("unident:" + op.Pres + ":" + clientName(l.client) + "-token:" + a.router)
+	}
 	if state == "replayed" {
 		w.replayTried = true
 	}
@@ -796,14 +864,21 @@ func (w *world) prepare(i int, op Op) *attempt {
 	}
 
 	a.l, a.state, a.token, a.caller = l, state, token, caller
-	a.cred, a.authOK, a.presKind = cred, authOK, presKind
+	a.cred, a.authOK, a.unident, a.presKind = cred, authOK, unident, presKind
 	a.form, a.sclass, a.req = form, sclass, req
 	a.reasons, a.verdict = reasons, verdict
-	a.desc = fmt.Sprintf("op %d (%s router): refresh of %s token of lineage %s by client %q (%s), scope %q (%s)", i, a.router, state, linDesc(l), w.specs[caller].ID, presKind, form.Get("scope"), sclass)
+	a.desc = fmt.Sprintf("op %d (%s router): refresh of %s token of lineage %s by client %q (%s), scope %q (%s)", i, a.router, state, linDesc(l), callerName(w, caller, unident), presKind, form.Get("scope"), sclass)
 	if op.In != "" {
 		a.desc += ", parameters: " + op.In
 	}
 	return a
+}
+
+func callerName(w *world, caller int, unident bool) string {
+	if unident {
+		return ""
+	}
+	return w.specs[caller].ID
 }
 
 // account puts the attempt into the label histogram, the distinctness signature and the judged / grey counters.
@@ -843,6 +918,7 @@ func (w *world) refresh(i int, op Op) bool {
 	if a == nil {
 		return true
 	}
+	op = a.op // operands as resolved (placement normalised)
 	l, router, token, verdict, reasons, sclass, desc := a.l, a.router, a.token, a.verdict, a.reasons, a.sclass, a.desc
 
 	// ---- execute
@@ -1177,6 +1253,9 @@ loop:
 	if w.replayTried {
 		w.label("nontrivial:replay")
 	}
+	if w.unidentTried {
+		w.label("nontrivial:unidentified-caller")
+	}
 	if c.NarrowPersists {
 		w.label("store:narrow-persists")
 	} else {
@@ -1195,7 +1274,7 @@ loop:
 		res.Labels = append(res.Labels, l)
 	}
 	sort.Strings(res.Labels)
-	res.NonTrivial = narrowThenWiden || w.foreignTried || w.replayTried
+	res.NonTrivial = narrowThenWiden || w.foreignTried || w.replayTried || w.unidentTried
 	if w.parSteps > 0 {
 		res.NonTrivial = w.parOverlap // concurrent histories: the rule is about the overlap
 	}
@@ -1207,9 +1286,9 @@ loop:
 
 var prop = vkit.Prop[Case]{
 	ID: "C07",
-	Rule: "cases = histories on two deployments sharing one storage (op.Provider router / LegacyServer router chosen per op; refresh grant disabled on none / one / both): 1-3+ code exchanges (openid, mostly offline_access, random further scopes) by a confidential (basic|post), a public PKCE and a private_key_jwt client, then up to 14 (thorough 28) ops: refresh(token = live / rotated / unknown{random,flipped,suffixed,access token,empty} of lineage #k; caller = owner / foreign client; presentation = right (optionally plus client_id=<owner> next to Basic / assertion) / wrong secret / client_id only / assertion by unregistered key; scope = absent / equal / permuted / subset / duplicate / full original / superset / widen-back / disjoint / empty / stray spaces; parameter placement = POST body / grant_type in the URL query / refresh_token in the URL query / everything in the URL query / GET; narrow->ask-for-more and rotate->replay pairs are generated on purpose), withdraw / restore a client's refresh grant, further code exchanges; storage policy narrowing persists on/off, refresh-token policy of the storage rotate (new string per refresh) / keep (1 in 4 cases: the storage answers the rotation call with the presented string, the token stays live), storage error styles, extra audience, opaque / JWT access tokens; " +
-		"oracle = lineage model (must-accept iff owner + authenticated/identified + registered + enabled + live + scope within current grant; empty scope-tokens grey; with parameters outside the body serving is not demanded (grey) but every refusal reason still binds and a success is judged in full) with journal assertions (exactly one CreateAccessAndRefreshTokens(current = presented) on success, no Create* and unchanged tables on refusal), response refresh_token = what the storage answered to that call (rotating storage: the record created by it, old token dead; keeping storage: the presented string, still live, refresh table unchanged), id_token sub/aud/auth_time and access-token sub/aud continuity, scope of every issuance within the current grant; " +
-		"non-trivial = a lineage with >=2 successful refreshes containing a narrowing and a later request for more than the previous issuance, or a foreign-client attempt on a live token, or a replay of a rotated token; distinct = (narrow policy, rotation policy, disabled deployments, sequence of router/verdict+reasons/scope kind/caller/placement per refresh op)",
+	Rule: "cases = histories on two deployments sharing one storage (op.Provider router / LegacyServer router chosen per op; refresh grant disabled on none / one / both): 1-3+ code exchanges (openid, mostly offline_access, random further scopes) by a confidential (basic|post), a public PKCE and a private_key_jwt client, then up to 14 (thorough 28) ops: refresh(token = live / rotated / unknown{random,flipped,suffixed,access token,empty} of lineage #k; caller = owner / foreign client; presentation = right (optionally plus client_id=<owner> next to Basic / assertion) / wrong secret / client_id only / assertion by unregistered key / no client named at all, for tokens of every client kind {nothing: no client_id, no Authorization header, no assertion; client_id=; client_id= plus a secret; Basic with an empty user; empty client_assertion}; scope = absent / equal / permuted / subset / duplicate / full original / superset / widen-back / disjoint / empty / stray spaces; parameter placement = POST body / grant_type in the URL query / refresh_token in the URL query / client_id only in the URL query / everything in the URL query / GET; narrow->ask-for-more and rotate->replay pairs are generated on purpose), withdraw / restore a client's refresh grant, further code exchanges; storage policy narrowing persists on/off, refresh-token policy of the storage rotate (new string per refresh) / keep (1 in 4 cases: the storage answers the rotation call with the presented string, the token stays live), storage error styles, extra audience, opaque / JWT access tokens; " +
+		"oracle = lineage model (must-accept iff owner + authenticated/identified + registered + enabled + live + scope within current grant; a request that names no client is must-refuse whatever the token's client is; empty scope-tokens grey; with parameters outside the body serving is not demanded (grey) but every refusal reason still binds and a success is judged in full) with journal assertions (exactly one CreateAccessAndRefreshTokens(current = presented) on success, no Create* and unchanged tables on refusal), response refresh_token = what the storage answered to that call (rotating storage: the record created by it, old token dead; keeping storage: the presented string, still live, refresh table unchanged), id_token sub/aud/auth_time and access-token sub/aud continuity, scope of every issuance within the current grant; " +
+		"non-trivial = a lineage with >=2 successful refreshes containing a narrowing and a later request for more than the previous issuance, or a foreign-client attempt on a live token, or an attempt on a live token by a caller that names no client, or a replay of a rotated token; distinct = (narrow policy, rotation policy, disabled deployments, sequence of router/verdict+reasons/scope kind/caller/placement per refresh op)",
 	Gen: genCase,
 	Run: run,
 }
